@@ -26,6 +26,7 @@ type W struct {
 	States   map[uint64]bool        // abstract model-state hashes at settles
 	Incon    map[string]int         // inconclusive counters
 	Free     bool                   // engine F
+	Real     bool                   // engine R (no bubble, wall clock)
 	Known    []string
 	cleanup  []func()
 }
@@ -65,7 +66,24 @@ func (w *W) Go(name string, f func()) {
 	simrt.Go("H:"+name, f)
 }
 
-func (w *W) Sleep(d time.Duration) { w.SleepFor(d) }
+func (w *W) Sleep(d time.Duration) {
+	if w.Real {
+		time.Sleep(d)
+		return
+	}
+	w.SleepFor(d)
+}
+
+// Settle: engine B/F: nothing more can happen at this instant; engine R (real
+// sockets, wall clock): a short real pause - only timing-free oracles are used
+// there.
+func (w *W) Settle() {
+	if w.Real {
+		time.Sleep(2 * time.Millisecond)
+		return
+	}
+	w.World.Settle()
+}
 
 func (w *W) OnCleanup(f func()) { w.cleanup = append(w.cleanup, f) }
 
